@@ -96,6 +96,12 @@ type c09Val struct {
 // c09FM is a pseudo-map (field map) with the single key "a".
 type c09FM struct{ A string }
 
+// Pseudo-maps with keys a / b / a,b / b,c holding arbitrary values.
+type c09FMA struct{ A any }
+type c09FMB struct{ B any }
+type c09FMAB struct{ A, B any }
+type c09FMBC struct{ B, C any }
+
 type c09Pool struct {
 	vs     []*c09Val
 	byName map[string]int
@@ -339,6 +345,25 @@ func c09Build(thorough bool) (*c09Pool, map[string]int) {
 	p.mp(sa, fm0)
 	p.mp(sa, eP1)
 	p.mp(sa, fP)
+	// maps of the same size with different key sets, and $nil as a stored
+	// value (a missing key must not be mistaken for a stored $nil)
+	vnil := named["nil"]
+	s1 := p.byName[c09Quote("1")]
+	sc := p.str("c", nil)
+	s2 := p.str("2", &c09Num{exact: true, r: big.NewRat(2, 1)})
+	nilMaps := []int{
+		p.mp(sa, vnil),
+		p.mp(sb, vnil),
+		p.mp(sa, vnil, sb, s1),
+		p.mp(sb, s1, sc, s2),
+		p.mp(sa, vnil, sb, vnil),
+		p.mp(sa, s1),
+		p.mp(sa, s1, sb, s1),
+		p.add(&c09Val{src: "$c09fmanil", kind: c09Map, fieldMap: true, keys: []int{sa}, vals: []int{vnil}, sub: "pseudo-map"}),
+		p.add(&c09Val{src: "$c09fmbnil", kind: c09Map, fieldMap: true, keys: []int{sb}, vals: []int{vnil}, sub: "pseudo-map"}),
+		p.add(&c09Val{src: "$c09fmab", kind: c09Map, fieldMap: true, keys: []int{sa, sb}, vals: []int{vnil, s1}, sub: "pseudo-map"}),
+		p.add(&c09Val{src: "$c09fmbc", kind: c09Map, fieldMap: true, keys: []int{sb, sc}, vals: []int{s1, s2}, sub: "pseudo-map"}),
+	}
 	fmB := p.add(&c09Val{src: "$c09fmb", kind: c09Map, fieldMap: true, keys: []int{sa}, vals: []int{sb}, sub: "pseudo-map"})
 	p.add(&c09Val{src: "$c09fmc", kind: c09Map, fieldMap: true, keys: []int{sa}, vals: []int{p.str("c", nil)}, sub: "pseudo-map"})
 
@@ -377,6 +402,10 @@ func c09Build(thorough bool) (*c09Pool, map[string]int) {
 	p.list(fn2, sb)
 	for _, x := range leaves {
 		p.list(x)
+	}
+	for _, x := range nilMaps {
+		p.list(x)
+		p.mp(sa, x)
 	}
 	if thorough {
 		// every two-element list over the numbers around the precision limits,
@@ -440,7 +469,11 @@ func (w *c09Evaler) eval(code string) (out []any, err string) {
 func (p *c09Pool) construct() {
 	w := c09NewEvaler(eval.BuildNs().
 		AddVar("c09fmb", vars.NewReadOnly(c09FM{A: "b"})).
-		AddVar("c09fmc", vars.NewReadOnly(c09FM{A: "c"})).Ns())
+		AddVar("c09fmc", vars.NewReadOnly(c09FM{A: "c"})).
+		AddVar("c09fmanil", vars.NewReadOnly(c09FMA{})).
+		AddVar("c09fmbnil", vars.NewReadOnly(c09FMB{})).
+		AddVar("c09fmab", vars.NewReadOnly(c09FMAB{A: nil, B: "1"})).
+		AddVar("c09fmbc", vars.NewReadOnly(c09FMBC{B: "1", C: "2"})).Ns())
 	if _, err := w.eval("var c09f1 = { }\nvar c09f2 = { }"); err != "" {
 		panic("c09 setup: " + err)
 	}
@@ -551,10 +584,10 @@ const (
 )
 
 type c09Oracle struct {
-	p     *c09Pool
-	eqM   [][]int8
-	cmpM  [][]int8
-	totM  [][]int8
+	p       *c09Pool
+	eqM     [][]int8
+	cmpM    [][]int8
+	totM    [][]int8
 	kindOrd [c09NKinds][c09NKinds]int8 // observed order of the types under compare &total
 }
 
@@ -1397,7 +1430,7 @@ func TestVerifC09(t *testing.T) {
 		for _, v := range p.vs {
 			kinds[v.sub]++
 		}
-		c.Rule(fmt.Sprintf("a pool of %d values (%v): $nil, booleans, strings (some numeric), 28 exact and 21 inexact numbers at and around 0, 1, 2^53, 2^63, 2^64, the float64 range limits, +-0.0, +-Inf, NaN, two closures, two builtin functions, $ok, maps, two pseudo-maps, lists and nested lists over them; every ordered pair (real vals.Equal, vals.Cmp, vals.CmpTotal and the builtins compare, compare &total, eq, not-eq, == != < <= > >= through Evaler.Eval, each on two separately constructed instances) and every ordered triple (laws on the observed relations); class = (sub-kinds of the values, observed eq/compare/compare &total results)", n, kinds))
+		c.Rule(fmt.Sprintf("a pool of %d values (%v): $nil, booleans, strings (some numeric), 28 exact and 21 inexact numbers at and around 0, 1, 2^53, 2^63, 2^64, the float64 range limits, +-0.0, +-Inf, NaN, two closures, two builtin functions, $ok, maps and pseudo-maps (including maps of equal size with different key sets and $nil as a stored value), lists and nested lists over them; every ordered pair (real vals.Equal, vals.Cmp, vals.CmpTotal and the builtins compare, compare &total, eq, not-eq, == != < <= > >= through Evaler.Eval, each on two separately constructed instances) and every ordered triple (laws on the observed relations); class = (sub-kinds of the values, observed eq/compare/compare &total results)", n, kinds))
 		c.Assume("the pool values are constructed by the real evaluator from source text and checked against their descriptors (Go representation, canonical number form) before use",
 			"not judged (documentation silent): eq of an exact and an inexact number with the same value, eq of 0.0 and -0.0, eq of a pseudo-map and a map with the same content, and whether closures and builtin functions count as one type for compare &total",
 			"the order of types under compare &total is unspecified: the observed order is used after checking that it is a strict total order",
